@@ -60,6 +60,8 @@ class Emitter:
         self.extern_funcs = collections.OrderedDict()  # C name -> declaration text (modelled std callees)
         self.struct_defs = collections.OrderedDict()
         self.facts = collections.OrderedDict()         # macro -> (C++ expression, C type) computed by g++
+        self.site_counter = {}
+        self.site_alias = collections.OrderedDict()    # alias C name -> [leaf fn id, leaf key, caller C name, call text]
 
     # ------------------------------------------------------------------ types
     def resolve(self, t):
@@ -1192,6 +1194,16 @@ class Emitter:
 
     def direct_call(self, fn, n, args, obj):
         name = self.need(fn)
+        if fn['id'] in self.leaves and self.leaves[fn['id']][1] in self.opts.get('per_site_leaves', ()):
+            # one alias per call site, so that the call-site precondition of the contract is a separate, named
+            # obligation for every site (dfcc otherwise shares one assertion between all call sites)
+            k = self.site_counter.get(fn['id'], 0) + 1
+            self.site_counter[fn['id']] = k
+            name = '%s_s%d' % (name, k)
+            self.site_alias[name] = [fn['id'], self.leaves[fn['id']][1], self.fname(self.cur_fn), None]
+            site_alias_name = name
+        else:
+            site_alias_name = None
         pts = [qt(p) for p in self.params(fn)]
         al = []
         if obj is not None:
@@ -1204,6 +1216,8 @@ class Emitter:
         for a in variadic_extra:
             al.append(self.E(a))
         s = '%s(%s)' % (name, ', '.join(al))
+        if site_alias_name:
+            self.site_alias[site_alias_name][3] = s[:300]
         if self.returns_ref(fn):
             s = '(*%s)' % s
         return s
@@ -1337,6 +1351,8 @@ class Emitter:
                 order.append(f['id'])
         # second pass so that return-type overrides learnt late are applied consistently
         self.loop_ordinal = {}
+        self.site_counter = {}
+        self.site_alias = collections.OrderedDict()
         for fid in order:
             self.emit_function(self.needed[fid])
         return order
